@@ -317,6 +317,27 @@ def worker(payload):
         except Exception as e:
             fail('history: rows appended after panel() still belong to their individual', case, 'values',
                  '%s: %s' % (type(e).__name__, str(e)[:300]))
+    # --- a data variable outside the trajectory operator is refused also when it is the SELECTED MEMBER of a catalog
+    #     (otherwise the engine reads it from one row of the individual and the result depends on the order of the rows)
+    if payload['orders']:
+        cases += 1
+        try:
+            from biogeme.catalog import Catalog
+            df = table(payload['orders'][0])
+            d = db.Database('c09cat', df)
+            d.panel('pid')
+            cat = Catalog.from_dict('c09_spec', {'linear': Variable('y'), 'log': log(Variable('y') * Variable('y') + 1.0)})
+            mixed = cat * PanelLikelihoodTrajectory(formula(False))
+            try:
+                got = mixed.get_value_c(database=d, betas={'b1': b1v, 'b2': b2v}, prepare_ids=True)
+                fail('variable outside the trajectory refused when it is the selected member of a catalog',
+                     {'formula': "Catalog{linear: y, log: ...} * PanelLikelihoodTrajectory(...)", 'ids': ids}, 'BiogemeError',
+                     [float(v) for v in got])
+            except BiogemeError:
+                pass
+        except Exception as e:
+            fail('variable outside the trajectory refused when it is the selected member of a catalog', {'ids': ids}, 'BiogemeError',
+                 '%s: %s' % (type(e).__name__, str(e)[:200]))
     # --- non-contiguous tables are refused by Database.panel (documented)
     for bad in payload['bad_orders']:
         cases += 1
